@@ -12,6 +12,7 @@
 //	rep   Bridge.reportTrafficStats under a forced interleaving (gated CloudControl)
 //	brg   Bridge.Close, cleanup report racing the periodic goroutine's final report
 //	sp    StreamProcessor.Close against an in-flight ReadPacket/WritePacket (gated transport)
+//	bg    Close while the storage cleaner / session sweep is mid-tick (storage lock held by a parked reader)
 //	tst   Tunnel.Start parked at its interface calls (manager.Ctx(), log) while Close calls run to completion
 //	flow  started Bridge with data in flight: EOF / endpoint error / Close / parent-context cancel; totals vs bytes delivered
 //	mgr   memory storage / SessionManager Close × N, background goroutines gone afterwards
@@ -39,7 +40,7 @@ func exec(caseStr string) (obs string) {
 			obs = "panic " + sanitize(fmt.Sprint(r))
 		}
 	}()
-	return withWatchdog(6*patient(), func() string {
+	return withWatchdog(4*patient(), func() string {
 		switch t[0] {
 		case "disp":
 			return runDisp(t)
@@ -57,6 +58,8 @@ func exec(caseStr string) (obs string) {
 			return runFlow(t)
 		case "tst":
 			return runTst(t)
+		case "bg":
+			return runBg(t)
 		}
 		return "bad case"
 	})
@@ -81,7 +84,7 @@ func suspect(obs string) bool {
 }
 
 // execPatient runs a case; a wait-dependent verdict is re-run alone up to three times with the
-// patience doubled each time and is reported only if it shows up every time.
+// patience doubled and is reported only if it shows up every time.
 func execPatient(caseStr string) string {
 	patience.Store(1)
 	obs := exec(caseStr)
@@ -89,22 +92,28 @@ func execPatient(caseStr string) string {
 		return obs
 	}
 	timeoutsRetried++
-	for try := 0; try < 3; try++ {
+	tries := 3
+	if timeoutsConfirmed > 0 {
+		tries = 1 // the tree hangs or leaks for real: do not spend the full budget on every case
+	}
+	patience.Store(2)
+	defer patience.Store(1)
+	for try := 0; try < tries; try++ {
 		time.Sleep(200 * time.Millisecond) // let stray goroutines of the previous attempt finish
-		patience.Store(patience.Load() * 2)
 		again := exec(caseStr)
 		if !suspect(again) {
-			patience.Store(1)
 			return again
 		}
 		obs = again
 	}
-	patience.Store(1)
 	timeoutsConfirmed++
 	return obs
 }
 
 func emit(out *vc.Out, key, caseStr string) {
+	if timeoutsConfirmed >= 3 {
+		return // three confirmed hangs/leaks are reported; the rest of the run would only wait
+	}
 	t0 := time.Now()
 	obs := execPatient(caseStr)
 	kind := strings.Fields(caseStr)[0]
@@ -262,6 +271,16 @@ func gen(out *vc.Out, r *vc.Rand, thorough bool) {
 		emit(out, "", fmt.Sprintf("sp op z chunks 0 cut -1 n %d rep %d %s", n, 20*mul, ms()))
 	}
 	emit(out, "", fmt.Sprintf("sp op z chunks 0 cut -1 n 16 rep %d %s", 50*mul, ms()))
+
+	// bg: Close while a background loop of the component is in the middle of a tick
+	for _, order := range []string{"close", "tick"} {
+		for _, n := range []int{1, 2, 4} {
+			emit(out, "", fmt.Sprintf("bg kind st order %s n %d rep %d %s", order, n, mul, ms()))
+		}
+	}
+	for _, n := range []int{1, 4} {
+		emit(out, "", fmt.Sprintf("bg kind sm order sweep n %d rep %d %s", n, 3*mul, ms()))
+	}
 
 	// tst: Close interleaved with Tunnel.Start at every injectable point of Start:
 	// every (closer kind × gate), then groups spread over the gates
